@@ -209,6 +209,38 @@ def r_rollback_paired(ctx):
             ctx.violation('%s:rollback-slice-mismatch' % h.qualname, h.loc(rl.ast),
                           'the rollback loop runs over `%s` but the truncation starts at `%s`: the reverted entries are not the deleted ones'
                           % (unparse(it), unparse(c.args[0])), instance=inst)
+        # same entries: the loop runs over X[S:] with X fetched from the log starting at index A, and the truncation starts at A + S
+        if not bad and isinstance(it, ast.Subscript) and isinstance(it.slice, ast.Slice) and it.slice.lower is not None and it.slice.upper is None and isinstance(it.value, ast.Name) and c.args:
+            inst5 = 'rolled-back entries are exactly the deleted ones'
+            def log_start(name, depth=0):
+                """AST of the log index the list `name` starts at: name = <fetch from the log>(A, ..) -> A;  name = other[k:] -> start(other) + k"""
+                ds = [d for d in U.walk_no_nested(h.node) if isinstance(d, ast.Assign) and len(d.targets) == 1 and isinstance(d.targets[0], ast.Name) and d.targets[0].id == name]
+                if len(ds) != 1 or depth > 3:
+                    return None
+                v = ds[0].value
+                if isinstance(v, ast.Call) and v.args and any(('A:' + R.log) in P.reads(t) for t in P.resolve_call(h, v).targets):
+                    return v.args[0]
+                if isinstance(v, ast.Subscript) and isinstance(v.slice, ast.Slice) and v.slice.upper is None and v.slice.lower is not None and isinstance(v.value, ast.Name):
+                    b = log_start(v.value.id, depth + 1)
+                    if b is not None:
+                        return ast.BinOp(left=b, op=ast.Add(), right=v.slice.lower)
+                return None
+            start = log_start(it.value.id)
+            fetch = [ast.Expr(value=ast.Call(func=ast.Name(id='_', ctx=ast.Load()), args=[start], keywords=[]))] if start is not None else []
+            xdefs = [None]
+            ctx.tick()
+            if len(xdefs) == 1 and fetch:
+                want = ex.tb.term(ast.BinOp(left=fetch[0].value.args[0], op=ast.Add(), right=it.slice.lower))
+                okx = all(oracle.entails(fs, ('eq', ex.tb.term(c.args[0]), want)) for fs in res.facts_at(tn.id)) and bool(res.facts_at(tn.id))
+                if okx:
+                    ctx.ok(inst5, h.loc(rl.ast), '`%s` holds the log from index `%s`; truncation index == that + `%s`' % (it.value.id, unparse(fetch[0].value.args[0]), unparse(it.slice.lower)))
+                else:
+                    bad = True
+                    ctx.violation('%s:rollback-entries-not-the-deleted-ones' % h.qualname, h.loc(rl.ast),
+                                  'the rollback loop runs over `%s`, where `%s` holds the log from index `%s`, but the truncation deletes from `%s`: membership entries that are '
+                                  'deleted are not reverted (or kept ones are)' % (unparse(it), it.value.id, unparse(fetch[0].value.args[0]), unparse(c.args[0])), instance=inst5)
+            else:
+                ctx.unproven(inst5, h.loc(rl.ast), 'origin of `%s` is not a single fetch from the log' % it.value.id)
         if not bad:
             ctx.ok(inst, h.loc(c), 'reverse loop with reverse=True dominates the truncation under dynamicMembershipChange; slice start `%s` shared' % (', '.join(sorted(start_names)) or 'const'))
     # loader: clear followed by restore of the member set
